@@ -137,8 +137,8 @@ fn real_call(m: &mut Machine, ctl: &Ctl, c: &Call) -> Outcome {
     if c.kind == Kind::StepIn { ctl.arm(NONE, NONE) } else { ctl.arm(c.once, c.from) }
     let kbh = m.kb.clone();
     let dsh = m.ds.clone();
-    let _g1 = if c.kbl { kbh.as_ref().map(|b| b.write().unwrap()) } else { None };
-    let _g2 = if c.dsl { dsh.as_ref().map(|b| b.write().unwrap()) } else { None };
+    let _g1 = if c.kbl { kbh.as_ref().map(|b| b.write().unwrap_or_else(|e| e.into_inner())) } else { None };
+    let _g2 = if c.dsl { dsh.as_ref().map(|b| b.write().unwrap_or_else(|e| e.into_inner())) } else { None };
     let sim = &mut m.sim;
     let r = catch(|| match c.kind {
         Kind::Run => sim.run(),
@@ -173,8 +173,8 @@ fn twin_step(t: &mut Machine, kbl: bool, dsl: bool) -> (Outcome, Tree) {
     let kbh = t.kb.clone();
     let dsh = t.ds.clone();
     let r = {
-        let _g1 = if kbl { kbh.as_ref().map(|b| b.write().unwrap()) } else { None };
-        let _g2 = if dsl { dsh.as_ref().map(|b| b.write().unwrap()) } else { None };
+        let _g1 = if kbl { kbh.as_ref().map(|b| b.write().unwrap_or_else(|e| e.into_inner())) } else { None };
+        let _g2 = if dsl { dsh.as_ref().map(|b| b.write().unwrap_or_else(|e| e.into_inner())) } else { None };
         let sim = &mut t.sim;
         catch(|| sim.step_in())
     };
